@@ -2,6 +2,8 @@ import OdakModel.Exec.OpsGenState
 import OdakModel.Generated.PropagatorObject
 import OdakModel.Generated.LossObjects
 import OdakModel.Generated.MeshObject
+import OdakModel.Generated.OptimizerAttrs
+import OdakModel.AttrFlow
 /-! Driver ops that RUN the object models regenerated from the Python source (work package 13) on abstract tensors - tokens carrying a
     content number, a shape and the elements stored into them - and print, per call, the attributes the step function stored (`x`), the
     attribute objects it wrote in place (`x[]`), and what kind of thing it returned: `V` a value (a new tensor), `N` a new object, `A:x`
@@ -195,6 +197,9 @@ partial def meshRun (x : Array Int) (off n : Nat) (s : PlanarMeshAttrs OTok Int)
       | some l => meshRun x (off + 2) (n - 1) s (h.set l (.mk (x.getD (off + 1) 0) [3, 3, 1] [])) ("-;X" :: acc)
 
 def opsGenObjMesh : List (String × Handler) := [
+  -- goa_tables  ->  attributes assigned by __init__ | assigned by optimize | written in place by optimize | handed to the torch optimiser | no stale read
+  ("goa_tables", fun _ => "|".intercalate [",".intercalate (attrsWritten optInitTrace), ",".intercalate (attrsWritten optimizeTrace),
+    ",".intercalate (attrsInPlace optimizeTrace), ",".intercalate (optimizeVariables.map (·.1)), toString (noStaleRead optimizeTrace)]),
   ("gmo_fields", fun _ => ",".intercalate meshFields),
   -- gmo_seq heights_given n {0 content | 1 | 2 | 3 content}*n  ->  init log | per call: stored attributes ; kinds returned
   ("gmo_seq", fun a => let x := a.toArray
